@@ -102,10 +102,31 @@ def gtext_of(rules, termdefs, layout):
 
 
 # ------------------------------------------------------------------ worker (impl side)
+import contextlib
+import signal
+
+
+@contextlib.contextmanager
+def cpu_limit(seconds):
+    """like impl.time_limit but on the CPU time of this process (ITIMER_PROF), so that a loaded
+    machine cannot turn a 1 ms call into a spurious Timeout; a looping impl still burns CPU"""
+    from lib import impl
+
+    def _alarm(signum, frame):
+        raise impl.Timeout()
+    old = signal.signal(signal.SIGPROF, _alarm)
+    signal.setitimer(signal.ITIMER_PROF, seconds)
+    try:
+        yield
+    finally:
+        signal.setitimer(signal.ITIMER_PROF, 0)
+        signal.signal(signal.SIGPROF, old)
+
+
 def _lr_result(p, w, gi, impl, parglare):
     r = {}
     try:
-        with impl.time_limit(3):
+        with cpu_limit(3):
             t = p.parse(w)
         r["kind"] = "ok"
         r["tree"] = impl.node_sx(t, gi)
@@ -127,7 +148,7 @@ def _lr_result(p, w, gi, impl, parglare):
 def _glr_result(p, w, gi, impl, parglare):
     r = {}
     try:
-        with impl.time_limit(5):
+        with cpu_limit(5):
             f = p.parse(w)
             n = len(f)
             r["kind"] = "forest"
@@ -198,7 +219,7 @@ def _worker(job):
             c["gerr"] = "skipped: LALR construction diverges for this base grammar"
             continue
         try:
-            with impl.time_limit(20):
+            with cpu_limit(20):
                 g = Grammar.from_string(gtext)
         except BaseException as e:  # noqa
             c["gerr"] = impl.exc_kind(e) + ": " + str(e)[:200]
@@ -212,7 +233,7 @@ def _worker(job):
         kw = {} if wsparam is None else {"ws": wsparam}
         lr = glr = lr_twin = None
         try:
-            with impl.time_limit(8), impl.quiet():
+            with cpu_limit(8), impl.quiet():
                 lr = Parser(g, build_tree=True, **kw)
             c["lr"] = "ok"
             c["table"] = impl.dump_table(lr.table, gi)
@@ -229,7 +250,7 @@ def _worker(job):
         except BaseException as e:  # noqa
             c["lr"] = impl.exc_kind(e)
         try:
-            with impl.time_limit(8), impl.quiet():
+            with cpu_limit(8), impl.quiet():
                 glr = GLRParser(g, **kw)
             c["glr"] = "ok"
         except BaseException as e:  # noqa
@@ -249,7 +270,7 @@ def _worker(job):
                     sk = []
                     for q in range(len(w) + 1):
                         try:
-                            with impl.time_limit(5):
+                            with cpu_limit(5):
                                 _, rp = lr.layout_parser.parse(w, q)
                             sk.append(max(rp, q))
                         except parglare.SyntaxError:
@@ -718,6 +739,8 @@ def run(ctx):
             else:
                 ctx.violation("GLRParser construction fails (%s) for layout configuration %s"
                               % (c.get("glr"), cfg), {"grammar": c["gtext"]}, no_input=True, key="glr-ctor")
+            if not has_lr and not has_glr:
+                continue
             if has_lr and layout is not None:
                 if c["layout_opts"] != [True, False, True, True, True]:
                     ctx.violation("layout sub-parser options differ from the modelled ones: %r"
@@ -792,7 +815,7 @@ def run(ctx):
                             ctx.violation("LR: LAYOUT rule (%s) and ws parameter give different results/positions/"
                                           "layout_content/errors" % cfg,
                                           dict(rep, with_layout=r["lr"], with_ws=r0["lr"]), key="lvw-lr-" + cfg)
-                    elif has_lr != (c0.get("lr") == "ok"):
+                    elif has_lr != (c0.get("lr") == "ok") and "Timeout" not in (c.get("lr"), c0.get("lr")):
                         ctx.violation("LR table construction outcome differs between LAYOUT rule (%s: %s) and ws (%s)"
                                       % (cfg, c.get("lr"), c0.get("lr")), rep, no_input=True, key="lvw-ctor")
                     if has_glr and c0.get("glr") == "ok":
@@ -871,14 +894,21 @@ def run(ctx):
         if kind == "skip":
             rep = {"grammar": c["gtext"], "input": w}
             mskip = [(x[0] if x else -1) for x in o[0]]
-            iskip = [x if x >= 0 else -1 for x in r["skip"]]
+            iskip = list(r["skip"])
+            wsskip = list(o[1])
+            # -2: the impl call hit the time limit / another exception (transient under load): inconclusive
+            keep = [i for i, x in enumerate(iskip) if x != -2]
+            st["layout_positions_inconclusive"] = st.get("layout_positions_inconclusive", 0) + len(iskip) - len(keep)
+            mskip = [mskip[i] for i in keep]
+            iskip = [iskip[i] for i in keep]
+            wsskip = [wsskip[i] for i in keep]
             st["layout_positions_checked"] += len(iskip)
             if mskip != iskip:
                 ctx.violation("LAYOUT sub-parser return positions differ between impl and model",
                               dict(rep, model=mskip, impl=iskip), no_input=True, key="diff-skip")
-            if extra and iskip != o[1]:
+            if extra and iskip != wsskip:
                 ctx.violation("ws-equivalent LAYOUT rule (%s) does not skip exactly the ws characters at some "
-                              "position" % c["cfg"], dict(rep, layout=iskip, ws=o[1]), key="layout-not-ws")
+                              "position" % c["cfg"], dict(rep, layout=iskip, ws=wsskip), key="layout-not-ws")
             continue
         if kind == "single":
             compare_model_impl(ctx, st, o, r["lr"], w, {"grammar": c["gtext"], "input": w}, "LR (%s)" % c["cfg"])
